@@ -212,6 +212,21 @@ def live_sessions(run, rng, th):
     run.compare("live_pair_run", lcases, limpl, replies)
 
 
+def directed_d17(run, cases, impl, mod):
+    """known finding D17 re-observed on every run by one directed history (harness/d17.py)"""
+    from harness import d17
+    for who in ("client", "server"):
+        net, mid = d17.directed(run, who)
+        try:
+            diffs = net.check_models()
+            check_delivery(run, net, "directed-D17-" + who, {"phase": "directed-D17"})
+            cases.append({"session": "directed-D17-" + who, "first_difference": diffs[:1]})
+            impl.append("agree"); mod.append("agree" if not diffs else "differ")
+            run.evaluations += 1
+        finally:
+            net.close()
+
+
 def run(run):
     rng = run.rng
     th = run.thorough()
@@ -262,6 +277,7 @@ def run(run):
         if i < 2:
             run.sample({"session": label, "cfg": cfg, "mtu": net.mtu,
                         "guaranteed": [[r["len"], r["retry"]] for r in list(net.sent["client"].values())[:6]]})
+    directed_d17(run, cases, impl, mod)
     run.compare("conn_run", cases, impl, mod)
     live_sessions(run, rng, th)
     run.rules.append(RULE)
